@@ -139,6 +139,10 @@ def run(w: World, rep: Report):
               why='' if ok else 'bytes_are_same no longer requires equal length and an all-zero xor')
     _no_memo_in_tree_classes(w, rep)
     _tree_construction(w, rep)
+    from .report import depend
+    depend(rep, w, 'rules_c11', ('C11.R4',), 'C04.TD11',
+           'unlocking scripts push the committed leaf script whatever its length: PUSH selects a push instruction for every '
+           'length 1..65535 (C11.R4 re-evaluated)', floor=4)
     # a proof that validated once must validate again: the VM side keeps no state between runs
     from .report import depend
     depend(rep, w, 'rules_c19', ('C19.R2',), 'C04.TD19',
